@@ -76,8 +76,9 @@ func run(c *wk.Ctx) {
 func smallOptions(r *rand.Rand) model.OptSet {
 	os := model.RandomOptions(r, model.OptConstraints{})
 	os.O.WriteBuffer = []int{1 << 10, 4 << 10, 16 << 10}[r.Intn(3)]
-	os.O.OpenFilesCacheCapacity = 500 // Get racing Close with a tiny cache was C09's finding F10 (fixed since)
-	os.Desc["WriteBuffer"], os.Desc["OpenFilesCacheCapacity"] = os.O.WriteBuffer, 500
+	// reads racing Close with a 1-4 entry open-files cache used to end in C09's finding F10 (fixed in 10db0f9):
+	// the small capacities of the matrix are used again
+	os.Desc["WriteBuffer"] = os.O.WriteBuffer
 	return os
 }
 
